@@ -454,14 +454,14 @@ example : (CV.C01PipeFS.loadFS { exampleCfg with opts := { skipExtends := false 
 /-! … a file that is there is read, sent through the per-document pipeline and merged (non-vacuity of `loadFS_panic_origin`:
 the composed function does reach the cross-file branch and loads) … -/
 #guard (CV.C01PipeFS.loadFS { exampleCfg with opts := { skipExtends := false } }
-    [⟨"base.yaml", "/w", [[("services", .map [("b", .map [("image", .str "x"), ("build", .str "./ctx")])])]]⟩]
+    [⟨"base.yaml", ".", [[("services", .map [("b", .map [("image", .str "x"), ("build", .str "./ctx")])])]]⟩]
     [[("services", .map [("a", .map [("extends", .map [("file", .str "base.yaml"), ("service", .str "b")])])])]]).stage == "ok"
 /-! … and a file that is there but lacks the service, or does not go through its own pipeline, is an error as well -/
 #guard (CV.C01PipeFS.loadFS { exampleCfg with opts := { skipExtends := false } }
-    [⟨"base.yaml", "/w", [[("services", .map [("c", .map [("image", .str "x")])])]]⟩]
+    [⟨"base.yaml", ".", [[("services", .map [("c", .map [("image", .str "x")])])]]⟩]
     [[("services", .map [("a", .map [("extends", .map [("file", .str "base.yaml"), ("service", .str "b")])])])]]).stage == "err:extends"
 #guard (CV.C01PipeFS.loadFS { exampleCfg with opts := { skipExtends := false } }
-    [⟨"base.yaml", "/w", [[("services", .map [("b", .map [("image", .str "${")])])]]⟩]
+    [⟨"base.yaml", ".", [[("services", .map [("b", .map [("image", .str "${")])])]]⟩]
     [[("services", .map [("a", .map [("extends", .map [("file", .str "base.yaml"), ("service", .str "b")])])])]]).stage == "err:interpolate"
 
 end CV.C01.Whole
